@@ -225,11 +225,9 @@ pub fn check_predict(fl: &Flags, stream: &str) -> Option<(String, String)> {
     });
     let pred = pred.unwrap_or_else(|e| machinery_error(&e.to_string()));
     let fs = filters(&fl.wsconst);
-    // BufRead::lines(): split on '\n', a trailing '\n' does not open another line
-    let mut lines: Vec<&str> = stream.split('\n').collect();
-    if lines.last() == Some(&"") {
-        lines.pop();
-    }
+    // BufRead::lines(): split after every '\n'; a line that ended in '\n' loses it and then ONE '\r' before it;
+    // an unterminated last line is kept as it is (a trailing '\n' does not open another line)
+    let lines: Vec<&str> = stream.split_inclusive('\n').map(|seg| match seg.strip_suffix('\n') { Some(x) => x.strip_suffix('\r').unwrap_or(x), None => seg }).collect();
     let outs: Vec<LineOut> = lines.iter().map(|l| pipeline_line(&pred, fl, &fs, l)).collect();
     let wtb = fl.tag_scores && fl.predict_tags;
     if matches(&out, &outs, fl, wtb) {
@@ -380,6 +378,16 @@ pub fn run(tier: Tier) -> ! {
             streams.push(body.join("\n"));
         }
     }
+    // carriage returns: CRLF-terminated lines, a line ending in CR CR LF, lines made of CRs only, a CR inside a
+    // line, an unterminated last line ending in CR - alone and next to ordinary lines
+    for l in ["ab\r", "ab\r\r", "\r", "\r\r", "a\rb", "あ\r\r\r"] {
+        for p in ["a b", "", "火星猫だ"] {
+            for body in [vec![l], vec![l, p], vec![p, l], vec![l, l]] {
+                streams.push(body.join("\n") + "\n");
+                streams.push(body.join("\n"));
+            }
+        }
+    }
     // very long lines (4000 and 20000 characters) between short and rejected ones
     for unit in tier.pick(vec!["ab12 あいa/b\\ 火星猫だ", "１２ａｂ－"], vec!["ab12 あいa/b\\ 火星猫だ", "a", "あ ", "１２ａｂ－"]) {
         for total in tier.pick(vec![3000usize], vec![4000usize, 20000]) {
@@ -449,6 +457,11 @@ pub fn run(tier: Tier) -> ! {
                         // the last line without its newline (n = 1 and 2), and with CR LF line ends
                         if n <= 2 && !body.last().map_or(true, |l| l.is_empty()) {
                             ejobs.push((fl.clone(), body.join("\n")));
+                            // CR LF line ends, and a line that ends in CR CR LF (the CR is then its last token's last character)
+                            ejobs.push((fl.clone(), body.join("\r\n") + "\r\n"));
+                            if n == 1 {
+                                ejobs.push((fl.clone(), body.join("\n") + "\r\r\n"));
+                            }
                         }
                     }
                 }
@@ -471,7 +484,7 @@ pub fn run(tier: Tier) -> ! {
     chk.assume("layout: tokenised line, newline, then the score block, then the tag-score block (the layout of the default mode and of the README); for a rejected line only the empty line is fixed, an empty block per requested block kind is tolerated");
     chk.assume("--tag-scores without --predict-tags is meaningless: a clean refusal (non-zero exit, empty stdout) or normal output without tag blocks is accepted, a panic is not");
     chk.finish(
-        "predict: every stream of 1..2 (thorough: + the 3-line streams containing a rejected line) lines from an 18-line pool (every adjacency of 1-, 2-, 3- and 4-byte characters in one line, empty, blank lines of one and three spaces, the four dash look-alikes whose character type changes under normalisation next to Other and Katakana characters, NUL, spaces, slashes, backslashes, half-width ASCII, half-width CJK punctuation whose full-width form has the same byte length, combining mark, multi-byte, one 100-character line; plus streams with 3000- (thorough: 4000- and 20000-) character lines) with and without final newline x every subset of {--no-norm, --predict-tags, --scores, --tag-scores} x 9 wsconst settings (none, D, G, D G, R, H R, T, O, K O T) x 3 models (without tags, with tags, with tags and a bias that splits almost everywhere so that filters really merge tokens) (quick: a rotating third of the stream x flag-set product); evaluate: every stream of 1..2/1..3 reference lines (tagged references also where the tool predicts no tags; with and without the final newline) (one-character sentences and lines whose first / last token is or ends in white space - an escaped space, U+3000, a tab - included) x {--no-norm} x {--predict-tags} x {char, word} x 9 wsconst settings x 3 models (quick: a quarter); stdout and exit status of the real binaries vs the library pipeline run in-process; non-trivial = blocks requested or more than one line",
+        "predict: every stream of 1..2 (thorough: + the 3-line streams containing a rejected line) lines from an 18-line pool (plus streams with CRLF, CR CR LF, CR-only lines, an inner CR and an unterminated last line ending in CR; every adjacency of 1-, 2-, 3- and 4-byte characters in one line, empty, blank lines of one and three spaces, the four dash look-alikes whose character type changes under normalisation next to Other and Katakana characters, NUL, spaces, slashes, backslashes, half-width ASCII, half-width CJK punctuation whose full-width form has the same byte length, combining mark, multi-byte, one 100-character line; plus streams with 3000- (thorough: 4000- and 20000-) character lines) with and without final newline x every subset of {--no-norm, --predict-tags, --scores, --tag-scores} x 9 wsconst settings (none, D, G, D G, R, H R, T, O, K O T) x 3 models (without tags, with tags, with tags and a bias that splits almost everywhere so that filters really merge tokens) (quick: a rotating third of the stream x flag-set product); evaluate: every stream of 1..2/1..3 reference lines (tagged references also where the tool predicts no tags; with and without the final newline) (one-character sentences and lines whose first / last token is or ends in white space - an escaped space, U+3000, a tab - included) x {--no-norm} x {--predict-tags} x {char, word} x 9 wsconst settings x 3 models (quick: a quarter); stdout and exit status of the real binaries vs the library pipeline run in-process; non-trivial = blocks requested or more than one line",
         true,
         &replay,
     )
